@@ -131,8 +131,11 @@ class TorchDistributedCommunicator:
                 operations in megabytes (default: 25).
         """
         self._bucket_cap_mb = bucket_cap_mb
+        # Buckets are keyed by the process group handle itself (None for the
+        # default group). Keying by the ranks derived from the group size
+        # would make distinct groups of equal size share one bucket.
         self._allreduce_buckets: defaultdict[
-            frozenset[int],
+            dist.ProcessGroup | None,
             AllreduceTensorBucket | None,
         ] = defaultdict(lambda: None)
 
@@ -153,7 +156,7 @@ class TorchDistributedCommunicator:
         Returns:
             Current AllreduceTensorBucket if one has been created else None.
         """
-        return self._allreduce_buckets[self.group_ranks(group)]
+        return self._allreduce_buckets[group]
 
     def _new_allreduce_bucket(
         self,
@@ -180,7 +183,7 @@ class TorchDistributedCommunicator:
                 'communicated.',
             )
         bucket = AllreduceTensorBucket(group)
-        self._allreduce_buckets[self.group_ranks(group)] = bucket
+        self._allreduce_buckets[group] = bucket
         return bucket
 
     def allreduce(
